@@ -221,6 +221,14 @@ def _fsubst(n, env, bound):
     new = copy.copy(n)
     for f, v in changed.items():
         setattr(new, f, v)
+    if isinstance(new, ast.Attribute) and isinstance(new.ctx, ast.Load):
+        # ``self.x`` with self bound to another name: the attribute fact is recorded under
+        # the substituted receiver
+        d = dotted(new)
+        if d is not None:
+            v = env.get(d)
+            if v is not None and d.split('.')[0] not in bound:
+                return v
     return new
 
 
